@@ -393,5 +393,212 @@ theorem setContainsAll_tie (rank : α → α → Rank) (l vs : List α) (fuel : 
   unfold Generated.setContainsAll
   exact setContainsAll_loop_tie rank vs l hl vs fuel hf
 
+/-! ### the class functions: MakeFromSequence, And, Or, Sans, Xor (a set is the list of its members; the collator a new
+    set gets is read off the source: `Make()` = the default one, `MakeWithCollator(first.GetCollator())` = the first operand's) -/
+
+theorem addValues_length (rank : α → α → Rank) : ∀ (vs l l' : List α), SetM.addValues rank l vs = some (.ok l') →
+    l'.length ≤ l.length + vs.length := by
+  intro vs
+  induction vs with
+  | nil => intro l l' h; simp [SetM.addValues] at h; subst h; simp
+  | cons x xs ih =>
+    intro l l' h
+    simp only [SetM.addValues, SetM.bindR] at h
+    cases h1 : SetM.addValue rank l x with
+    | none => simp [h1] at h
+    | some e =>
+      cases e with
+      | error p => simp [h1] at h
+      | ok m =>
+        simp only [h1] at h
+        have := addValue_length rank l m x h1
+        have := ih m l' h
+        simp only [List.length_cons]; omega
+
+theorem removeValues_length (rank : α → α → Rank) : ∀ (vs l l' : List α), SetM.removeValues rank l vs = some (.ok l') →
+    l'.length ≤ l.length := by
+  intro vs
+  induction vs with
+  | nil => intro l l' h; simp [SetM.removeValues] at h; subst h; simp
+  | cons x xs ih =>
+    intro l l' h
+    simp only [SetM.removeValues, SetM.bindR] at h
+    cases h1 : SetM.removeValue rank l x with
+    | none => simp [h1] at h
+    | some e =>
+      cases e with
+      | error p => simp [h1] at h
+      | ok m =>
+        simp only [h1] at h
+        have := removeValue_length rank l m x h1
+        have := ih m l' h
+        omega
+
+theorem setMakeFromSequence_loop_tie (rank : α → α → Rank) (values : List α) (bound : Nat) (hb : IsInt64 ((bound : Int) + 1)) :
+    ∀ (it l : List α) (fuel : Nat), l.length + it.length ≤ bound → l.length + 2 * it.length + 1 < fuel →
+      Generated.setMakeFromSequence_loop1 rank values fuel l rank it = SetM.addValues rank l it := by
+  intro it
+  induction it with
+  | nil =>
+    intro l fuel _ hf
+    obtain ⟨f, rfl⟩ : ∃ k, fuel = k + 1 := ⟨fuel - 1, by omega⟩
+    simp [Generated.setMakeFromSequence_loop1, SetM.addValues]
+  | cons x xs ih =>
+    intro l fuel hlen hf
+    obtain ⟨f, rfl⟩ : ∃ k, fuel = k + 1 := ⟨fuel - 1, by omega⟩
+    simp only [List.length_cons] at hlen hf
+    unfold Generated.setMakeFromSequence_loop1
+    simp only [List.isEmpty_cons, Bool.not_false, if_true, Seq.itNext, SetM.addValues]
+    rw [setAddValue_tie rank l x f (by unfold IsInt64 at *; omega) (by omega)]
+    cases h : SetM.addValue rank l x with
+    | none => rfl
+    | some e =>
+      cases e with
+      | error p => rfl
+      | ok l' =>
+        have := addValue_length rank l l' x h
+        simp only [bindO_ok, SetM.bindR]
+        exact ih l' f (by omega) (by omega)
+
+/-- `setClass_.MakeFromSequence` as written in set.go = `SetM.makeFrom` with the default collator -/
+theorem setMakeFromSequence_tie (rank : α → α → Rank) (vs : List α) (fuel : Nat) (hb : IsInt64 ((vs.length : Int) + 1))
+    (hf : 2 * vs.length + 1 < fuel) :
+    Generated.setMakeFromSequence rank vs fuel = SetM.makeFrom rank vs := by
+  unfold Generated.setMakeFromSequence SetM.makeFrom
+  exact setMakeFromSequence_loop_tie rank vs vs.length hb vs [] fuel (by simp) (by simpa using hf)
+
+/-- `setClass_.Or` as written in set.go = `SetM.setOr` under the first operand's collator -/
+theorem setOr_tie (rank rank2 : α → α → Rank) (a b : List α) (fuel : Nat) (hb : IsInt64 ((a.length : Int) + (b.length : Int) + 1))
+    (hf : 3 * (a.length + b.length) + 2 < fuel) :
+    Generated.setOr rank rank2 a b fuel = SetM.setOr rank a b := by
+  unfold Generated.setOr SetM.setOr
+  simp only []
+  rw [setAddValues_tie rank [] a fuel (by unfold IsInt64 at *; simp; omega) (by simp; omega)]
+  cases h : SetM.addValues rank [] a with
+  | none => rfl
+  | some e =>
+    cases e with
+    | error p => rfl
+    | ok r =>
+      have := addValues_length rank a [] r h
+      simp only [List.length_nil, Nat.zero_add] at this
+      simp only [bindO_ok, SetM.bindR]
+      rw [setAddValues_tie rank r b fuel (by unfold IsInt64 at *; omega) (by omega)]
+      cases SetM.addValues rank r b with
+      | none => rfl
+      | some e => cases e <;> rfl
+
+/-- `setClass_.Sans` as written in set.go = `SetM.setSans` under the first operand's collator -/
+theorem setSans_tie (rank rank2 : α → α → Rank) (a b : List α) (fuel : Nat) (hb : IsInt64 ((a.length : Int) + (b.length : Int) + 1))
+    (hf : 3 * (a.length + b.length) + 2 < fuel) :
+    Generated.setSans rank rank2 a b fuel = SetM.setSans rank a b := by
+  unfold Generated.setSans SetM.setSans
+  simp only []
+  rw [setAddValues_tie rank [] a fuel (by unfold IsInt64 at *; simp; omega) (by simp; omega)]
+  cases h : SetM.addValues rank [] a with
+  | none => rfl
+  | some e =>
+    cases e with
+    | error p => rfl
+    | ok r =>
+      have := addValues_length rank a [] r h
+      simp only [List.length_nil, Nat.zero_add] at this
+      simp only [bindO_ok, SetM.bindR]
+      rw [setRemoveValues_tie rank r b fuel (by unfold IsInt64 at *; omega) (by omega)]
+      cases SetM.removeValues rank r b with
+      | none => rfl
+      | some e => cases e <;> rfl
+
+theorem setSans_length (rank : α → α → Rank) (a b r : List α) (h : SetM.setSans rank a b = some (.ok r)) : r.length ≤ a.length := by
+  unfold SetM.setSans SetM.bindR at h
+  cases h1 : SetM.addValues rank [] a with
+  | none => simp [h1] at h
+  | some e =>
+    cases e with
+    | error p => simp [h1] at h
+    | ok m =>
+      simp only [h1] at h
+      have := addValues_length rank a [] m h1
+      have := removeValues_length rank b m r h
+      simp at *; omega
+
+/-- `setClass_.Xor` as written in set.go = `SetM.setXor`: `Sans(first, second)` under the first collator, `Sans(second, first)`
+    under the second, the final `Or` under the first -/
+theorem setXor_tie (rank rank2 : α → α → Rank) (a b : List α) (fuel : Nat) (hb : IsInt64 ((a.length : Int) + (b.length : Int) + 1))
+    (hf : 3 * (a.length + b.length) + 2 < fuel) :
+    Generated.setXor rank rank2 a b fuel = SetM.setXor rank rank2 a b := by
+  unfold Generated.setXor SetM.setXor
+  rw [setSans_tie rank rank2 a b fuel hb hf]
+  cases h1 : SetM.setSans rank a b with
+  | none => rfl
+  | some e =>
+    cases e with
+    | error p => rfl
+    | ok x =>
+      simp only [bindO_ok, SetM.bindR]
+      rw [setSans_tie rank2 rank b a fuel (by unfold IsInt64 at *; omega) (by omega)]
+      cases h2 : SetM.setSans rank2 b a with
+      | none => rfl
+      | some e =>
+        cases e with
+        | error p => rfl
+        | ok y =>
+          have := setSans_length rank a b x h1
+          have := setSans_length rank2 b a y h2
+          simp only [bindO_ok]
+          rw [setOr_tie rank rank2 x y fuel (by unfold IsInt64 at *; omega) (by omega)]
+          cases SetM.setOr rank x y with
+          | none => rfl
+          | some e => cases e <;> rfl
+
+theorem setAnd_loop_tie (rank rank2 : α → α → Rank) (first second : List α) (bound : Nat) (hb : IsInt64 ((bound : Int) + 1))
+    (hs : second.length ≤ bound) :
+    ∀ (it result : List α) (fuel : Nat), result.length + it.length ≤ bound →
+      result.length + second.length + 2 * it.length + 1 < fuel →
+      Generated.setAnd_loop1 rank rank2 first second fuel result rank it = SetM.andLoop rank rank2 second result it := by
+  intro it
+  induction it with
+  | nil =>
+    intro result fuel _ hf
+    obtain ⟨f, rfl⟩ : ∃ k, fuel = k + 1 := ⟨fuel - 1, by omega⟩
+    simp [Generated.setAnd_loop1, SetM.andLoop]
+  | cons x xs ih =>
+    intro result fuel hlen hf
+    obtain ⟨f, rfl⟩ : ∃ k, fuel = k + 1 := ⟨fuel - 1, by omega⟩
+    simp only [List.length_cons] at hlen hf
+    unfold Generated.setAnd_loop1
+    simp only [List.isEmpty_cons, Bool.not_false, if_true, Seq.itNext, SetM.andLoop]
+    rw [setContainsValue_tie rank2 second x f (by unfold IsInt64 at *; omega) (by omega)]
+    cases h : SetM.containsValue rank2 second x with
+    | none => rfl
+    | some e =>
+      cases e with
+      | error p => rfl
+      | ok b =>
+        cases b with
+        | false =>
+          simp only [setRes, SetM.bindR, Except.map, Option.map, bindO_ok, Bool.false_eq_true, if_false]
+          exact ih result f (by omega) (by omega)
+        | true =>
+          simp only [setRes, SetM.bindR, Except.map, Option.map, bindO_ok, if_true]
+          rw [setAddValue_tie rank result x f (by unfold IsInt64 at *; omega) (by omega)]
+          cases h2 : SetM.addValue rank result x with
+          | none => rfl
+          | some e =>
+            cases e with
+            | error p => rfl
+            | ok r =>
+              have := addValue_length rank result r x h2
+              simp only [bindO_ok]
+              exact ih r f (by omega) (by omega)
+
+/-- `setClass_.And` as written in set.go = `SetM.setAnd`: membership in the second operand is decided by the second
+    operand's own collator, the result is built under the first one's -/
+theorem setAnd_tie (rank rank2 : α → α → Rank) (a b : List α) (fuel : Nat) (hb : IsInt64 ((a.length : Int) + (b.length : Int) + 1))
+    (hf : 2 * a.length + b.length + 1 < fuel) :
+    Generated.setAnd rank rank2 a b fuel = SetM.setAnd rank rank2 a b := by
+  unfold Generated.setAnd SetM.setAnd
+  exact setAnd_loop_tie rank rank2 a b (a.length + b.length) (by unfold IsInt64 at *; omega) (by omega) a [] fuel (by simp) (by simp; omega)
+
 end Tie
 end CM
